@@ -402,7 +402,8 @@ def component_level(v, seg, name, ref, spath, res, point):
 def msh9_text(v, name):
     parts = (name.split('_') + ['A01', ''])[:2]
     n = len(dict(tables.field_rows(v, 'MSH'))[9].children)
-    return '%s^%s^%s' % (parts[0], parts[1], name) if n >= 3 else '%s^%s' % (parts[0], parts[1])
+    # a structure id without underscore (ACK) cannot be derived from type^event: spell it out as third component
+    return '%s^%s^%s' % (parts[0], parts[1], name) if n >= 3 or '_' not in name else '%s^%s' % (parts[0], parts[1])
 
 
 def field_unit(v, seg, res):
